@@ -245,6 +245,7 @@ class Check:
         self.samples = []
         self.failures = []       # dicts with what, site, detail, case, part
         self.nfail_total = 0
+        self.class_totals = {}   # (part, "what|site") -> number of failures of that class (recorded or not)
         self.parts = []          # per-part coverage notes
         self.assumptions = []
         self.notes = {}
@@ -263,6 +264,9 @@ class Check:
         self.nontrivial += r["nontrivial"]
         self.traces += traces if traces is not None else r["cases"]
         self.nfail_total += r["nfail"]
+        for k, n in r.get("counters", {}).items():
+            if k.startswith("class:"):
+                self.class_totals[(label, k[6:])] = self.class_totals.get((label, k[6:]), 0) + n
         for f in r["failures"]:
             f = dict(f)
             f["part"] = label
@@ -289,8 +293,31 @@ class Check:
                 known_hits[key][1] += 1
             else:
                 violations.append(f)
-        # failures beyond the recorded cap cannot be matched: they count as violations unless all recorded ones were known
-        unrecorded = self.nfail_total - len(self.failures)
+        # failures beyond the per-class recording cap: a class all of whose recorded members matched a known
+        # finding identified by what/site only is known as a whole; any other unrecorded failure is a violation
+        unrecorded = 0
+        rec = {}
+        for f in self.failures:
+            key = (f.get("part"), "%s|%s" % (f.get("what"), f.get("site")))
+            rec[key] = rec.get(key, 0) + 1
+        viol_classes = {(v.get("part"), "%s|%s" % (v.get("what"), v.get("site"))) for v in violations}
+        for key, total in self.class_totals.items():
+            extra = total - rec.get(key, 0)
+            if extra <= 0:
+                continue
+            what, site = key[1].split("|", 1)
+            probe = {"what": what, "site": site, "part": key[0]}
+            simple = [e for e in known if set(e.get("match", {}).keys()) <= {"what", "site", "part"} and match_known(e, probe)]
+            if simple and key not in viol_classes:
+                k0 = simple[0].get("id", simple[0].get("what", "?"))
+                known_hits.setdefault(k0, [simple[0], 0])
+                known_hits[k0][1] += extra
+            else:
+                unrecorded += extra
+        if unrecorded and not violations:
+            violations.append({"what": "unrecorded-failures", "site": "", "part": "*", "mode": None,
+                               "detail": {"count": unrecorded, "why": "more failures than the recording cap; rerun with a larger max_fail"},
+                               "case": None})
         for key, (e, n) in sorted(known_hits.items()):
             log("KNOWN-FINDING: property=%s %s (id=%s, %d occurrence(s) in this run)" % (self.prop, e.get("what", ""), key, n))
         replay = None
